@@ -1,17 +1,25 @@
-/-! Prototype: remote device tree under detailed-discovery reply / notify (spine/device_remote.go,
-    nodemanagement_detaileddiscovery.go), well-formed messages only (every entry carries type and address) -/
+/-! Remote device tree under detailed-discovery reply / notify (spine/device_remote.go,
+    nodemanagement_detaileddiscovery.go, feature_remote.go), well-formed messages only (every entry carries type and
+    address, every feature description carries address, type and role, every supportedFunction a function).
+    Descriptions are interned to `Option Nat` (`none` = absent), announced operations to a number
+    (read ∈ {absent, plain, partial} + 3 * write ∈ {absent, plain, partial}). -/
 namespace Spine.Disc
 
+/-- a remote feature as the API reports it: address (entity, id), type, role, description, operations per function
+    (what `SetOperations` stored: one entry per function, sorted by function for a canonical form) -/
 structure F where
   ent : List Nat
   id : Nat
   typ : Nat
   role : Nat
+  desc : Option Nat
+  ops : List (Nat × Nat)
 deriving DecidableEq, Repr
 
 structure E where
   addr : List Nat
   typ : Nat
+  desc : Option Nat
   feats : List F
 deriving DecidableEq, Repr
 
@@ -21,12 +29,50 @@ structure EI where
   addr : List Nat
   typ : Nat
   chg : Chg
+  desc : Option Nat
 deriving DecidableEq, Repr
+
+/-- a feature description as announced: `supportedFunction` is a list of (function, possibleOperations?) -/
+structure FI where
+  ent : List Nat
+  id : Nat
+  typ : Nat
+  role : Nat
+  desc : Option Nat
+  fns : List (Nat × Option Nat)
+deriving DecidableEq, Repr
+
+/-- the operations map as an association list sorted by function; a later entry for a function replaces the earlier -/
+def insertOp (fn b : Nat) : List (Nat × Nat) → List (Nat × Nat)
+  | [] => [(fn, b)]
+  | (g, c) :: rest =>
+    if fn < g then (fn, b) :: (g, c) :: rest
+    else if fn = g then (fn, b) :: rest
+    else (g, c) :: insertOp fn b rest
+
+def setOpsStep (acc : List (Nat × Nat)) (x : Nat × Option Nat) : List (Nat × Nat) :=
+  match x.2 with
+  | some b => insertOp x.1 b acc
+  | none => acc      -- `possibleOperations` absent: the function is skipped
+
+/-- FeatureRemote.SetOperations -/
+def setOps (l : List (Nat × Option Nat)) : List (Nat × Nat) := l.foldl setOpsStep []
+
+/-- unmarshalFeature -/
+def unmarshal (fi : FI) : F := ⟨fi.ent, fi.id, fi.typ, fi.role, fi.desc, setOps fi.fns⟩
 
 structure Msg where
   ents : List EI
   feats : List F
 deriving Repr
+
+/-- a message as announced (feature descriptions not yet unmarshalled) -/
+structure Wire where
+  ents : List EI
+  feats : List FI
+deriving Repr
+
+def Msg.ofWire (w : Wire) : Msg := ⟨w.ents, w.feats.map unmarshal⟩
 
 inductive Evt | add (a : List Nat) | rem (a : List Nat) deriving DecidableEq, Repr
 
@@ -34,13 +80,14 @@ abbrev Tree := List E
 
 def findE (t : Tree) (a : List Nat) : Option E := t.find? (·.addr = a)
 
-/-- one iteration of AddEntityAndFeatures: create the entity if unknown, replace its features -/
+/-- one iteration of AddEntityAndFeatures: create the entity if unknown (type and description from the entry),
+    otherwise set its description (the type of a known entity is never touched); replace its features -/
 def addOne (m : Msg) (acc : Tree × List Evt) (ei : EI) : Tree × List Evt :=
   let (t, evs) := acc
   let fs := m.feats.filter (·.ent = ei.addr)
   match findE t ei.addr with
-  | some _ => (t.map fun e => if e.addr = ei.addr then { e with feats := fs } else e, evs)
-  | none => (t ++ [{ addr := ei.addr, typ := ei.typ, feats := fs }], evs ++ [.add ei.addr])
+  | some _ => (t.map fun e => if e.addr = ei.addr then { e with desc := ei.desc, feats := fs } else e, evs)
+  | none => (t ++ [{ addr := ei.addr, typ := ei.typ, desc := ei.desc, feats := fs }], evs ++ [.add ei.addr])
 
 /-- AddEntityAndFeatures over the *whole* message -/
 def addAll (m : Msg) (t : Tree) : Tree × List Evt := m.ents.foldl (addOne m) (t, [])
@@ -56,34 +103,30 @@ def remAll (m : Msg) (t : Tree) : Tree × List Evt := m.ents.foldl remOne (t, []
 
 def reply (m : Msg) (t : Tree) : Tree × List Evt := addAll m t
 
-/-- processNotifyDetailedDiscoveryData on a partial message, as written: for every entry, depending on
-    its state change, the whole message is added or the whole message is removed -/
+/-- one iteration of the handler's loop as written: for an `added` entry the *whole* message is added, for a `removed`
+    entry *every* entry of the message is removed -/
+def stepWritten (m : Msg) (acc : Tree × List Evt) (ei : EI) : Tree × List Evt :=
+  match ei.chg with
+  | .added => ((addAll m acc.1).1, acc.2 ++ (addAll m acc.1).2)
+  | .removed => ((remAll m acc.1).1, acc.2 ++ (remAll m acc.1).2)
+  | .none => acc
+
+/-- processNotifyDetailedDiscoveryData on a partial message, as written. Entries before the first one without a state
+    change are processed, then the handler returns an error (third component `false`). -/
 def notifyPartial (m : Msg) (t : Tree) : Tree × List Evt × Bool :=
   if m.ents.isEmpty then (t, [], false) else
   if m.ents.any (·.chg = .none) then
-    -- entries before the first one without a state change are processed, then the handler returns an error
-    let pre := m.ents.takeWhile (·.chg ≠ .none)
-    let r := pre.foldl (fun (acc : Tree × List Evt) ei =>
-      let (t, evs) := acc
-      match ei.chg with
-      | .added => let (t', e') := addAll m t; (t', evs ++ e')
-      | .removed => let (t', e') := remAll m t; (t', evs ++ e')
-      | .none => acc) (t, [])
+    let r := (m.ents.takeWhile (·.chg ≠ .none)).foldl (stepWritten m) (t, [])
     (r.1, r.2, false)
   else
-    let r := m.ents.foldl (fun (acc : Tree × List Evt) ei =>
-      let (t, evs) := acc
-      match ei.chg with
-      | .added => let (t', e') := addAll m t; (t', evs ++ e')
-      | .removed => let (t', e') := remAll m t; (t', evs ++ e')
-      | .none => acc) (t, [])
+    let r := m.ents.foldl (stepWritten m) (t, [])
     (r.1, r.2, true)
 
 /-- provideDetailedDiscoveryDiffForFullNotify -/
 def fullDiff (m : Msg) (t : Tree) : Msg :=
   let added := m.ents.filter fun ei => (findE t ei.addr).isNone
   let existing := (m.ents.filter fun ei => (findE t ei.addr).isSome).map (·.addr)
-  let removed := (t.filter fun e => !existing.contains e.addr).map fun e => ({ addr := e.addr, typ := e.typ, chg := .removed } : EI)
+  let removed := (t.filter fun e => !existing.contains e.addr).map fun e => ({ addr := e.addr, typ := e.typ, chg := .removed, desc := none } : EI)
   { ents := (added.map fun ei => { ei with chg := .added }) ++ removed,
     feats := m.feats.filter fun f => (added.map (·.addr)).contains f.ent }
 
